@@ -38,6 +38,9 @@ def enum_cases(tier, seed):
 
 @st.composite
 def hyp_case(draw, max_len):
+    if draw(st.integers(0, 15)) == 0:
+        s = draw(gens.long_charged(129, 330))
+        return {"seq": s, "respell": draw(gens.spelled(ref.pattern(s))), "warm": []}
     warm = draw(gens.warmups())
     s = draw(gens.sequences(max_len=60 if warm else max_len))
     alt = draw(gens.spelled(ref.pattern(s)))
